@@ -220,7 +220,25 @@ func mutateJSON(rt *rapid.T, valid []byte) ([]byte, string) {
 		desc = "top-level-non-object"
 	} else {
 		n := nodes[rapid.IntRange(0, len(nodes)-1).Draw(rt, "node")]
-		switch rapid.IntRange(0, 11).Draw(rt, "jmut") {
+		switch rapid.IntRange(0, 13).Draw(rt, "jmut") {
+		case 12, 13:
+			// a scalar (Booleans first) written in another lexical form that some parser along the way may accept:
+			// strings where JSON has literals or numbers, other spellings, numbers where strings are expected
+			var scalars []map[string]any
+			for _, x := range nodes {
+				switch ty, _ := x["type"].(string); ty {
+				case "Boolean":
+					scalars = append(scalars, x, x, x, x)
+				case "Integer", "LongInteger", "BigInteger", "Enumeration", "Interval", "DateTime", "TextString", "ByteString":
+					scalars = append(scalars, x)
+				}
+			}
+			if len(scalars) > 0 {
+				n = scalars[rapid.IntRange(0, len(scalars)-1).Draw(rt, "scalarnode")]
+			}
+			n["value"] = rapid.SampledFrom([]any{"true", "false", "t", "f", "T", "F", "TRUE", "False", "1", "0", "yes", true, false, json.Number("1"), json.Number("0"),
+				"12", "+12", " 12", "0x0000000C", "0X0C", "1e2", "2024-01-01T00:00:00Z", "2024-01-01", json.Number("1700000000"), "00", "0g", json.Number("12")}).Draw(rt, "altform")
+			desc = "scalar-in-another-lexical-form"
 		case 10, 11:
 			// a numeric element (big integers first) gets a JSON number that is legal JSON but no integer literal
 			var numeric []map[string]any
